@@ -239,7 +239,7 @@ pub fn apply_child_op(s: &mut Sim, pid: i32, op: &mut ChildOp) -> (i64, i32) {
             if lag > 0 && s.k.proc(pid).state == PState::PreExec {
                 // _exit() has been called, the process lingers while it is torn down
                 s.k.fcount.hit("exit_lag");
-                let until = s.k.now + lag;
+                let until = s.k.now.saturating_add(lag);
                 let p = s.k.proc_mut(pid);
                 p.prog = vec![crate::prog::Op::Exit { code: *code }];
                 p.cur = Default::default();
@@ -821,7 +821,7 @@ pub unsafe extern "C" fn poll(fds: *mut libc::pollfd, nfds: c_ulong, timeout: c_
             par_enter(t, Call::Poll);
             let v = std::slice::from_raw_parts_mut(fds, nfds as usize);
             let start = sim().k.now;
-            let deadline = if timeout < 0 { None } else { Some(start + timeout as u64 * 1_000_000) };
+            let deadline = if timeout < 0 { None } else { Some(start.saturating_add(timeout as u64 * 1_000_000)) };
             let mut blocked = false;
             loop {
                 if poisoned() {
@@ -853,7 +853,7 @@ pub unsafe extern "C" fn poll(fds: *mut libc::pollfd, nfds: c_ulong, timeout: c_
                         let part = left / 4 * (1 + s.ch.choose(3) as u64);
                         if part > 0 {
                             let w: Vec<(i32, i16)> = v.iter().map(|p| (p.fd, p.events)).collect();
-                            let mid = s.k.now + part;
+                            let mid = s.k.now.saturating_add(part);
                             if let Woke::Ready = sched_block(t, Wait::Poll(w), Some(mid)) {
                                 // something became ready first: no interruption after all
                                 blocked = true;
@@ -919,7 +919,7 @@ unsafe fn sleep_impl(t: u8, ns: u64, absolute: bool) -> Option<u64> {
         if total >= 4 && eintr_fault(sim(), t, 8) {
             // the signal arrives some way into the sleep
             let part = total / 4 * (1 + sim().ch.choose(3) as u64);
-            sched_block(t, Wait::Timer, Some(start + part));
+            sched_block(t, Wait::Timer, Some(start.saturating_add(part)));
             left = Some(deadline.saturating_sub(sim().k.now));
         } else {
             sched_block(t, Wait::Timer, Some(deadline));
